@@ -305,6 +305,40 @@ class Gen:
         return nm
 
 
+PULLED = {("Reservoir", "FWTW"), ("FWTW", "Distribution"), ("Distribution", "Demand"), ("River", "Reservoir"), ("River", "RiverReservoir"),
+          ("UnlimitedDistribution", "Demand"), ("Distribution", "ResidentialDemand"), ("UnlimitedDistribution", "ResidentialDemand")}
+
+
+def mix_arcs(g, r, p):
+    """give some arcs another class: links that only carry pushes become travel-time arcs (QueueArc / AltQueueArc, 0-2
+    timesteps), decaying arcs, sewer / weir arcs or push-only arcs; links that only carry pulls become pull-only arcs"""
+    kind = {n["name"]: cls_of(n) for n in g.nodes}
+    adds, _ = g.pols()
+    for a in g.arcs:
+        if r.random() >= p:
+            continue
+        pair = (kind[a["in_port"]], kind[a["out_port"]])
+        if pair in PULLED:
+            a["type_"] = "PullArc"
+            continue
+        if kind[a["in_port"]] in ("Reservoir", "FWTW", "Distribution", "UnlimitedDistribution", "Catchment"):
+            continue        # pulled from / abstracted from: plain arcs
+        t = r.choice(["QueueArc", "QueueArc", "AltQueueArc", "DecayArc", "SewerArc", "WeirArc", "PushArc"])
+        if t == "DecayArc":
+            # a decaying arc reads the temperature from the data of its in_port
+            src = next(n for n in g.nodes if n["name"] == a["in_port"])
+            d = src.get("data_input_dict") or {}
+            if not all(("temperature", dt) in d for dt in g.dates):
+                t = "QueueArc"
+        a["type_"] = t
+        if t in ("QueueArc", "DecayArc"):
+            a["number_of_timesteps"] = r.choice([0, 1, 1, 2])
+        if t == "AltQueueArc":
+            a["number_of_timesteps"] = r.choice([1, 2])
+        if t == "DecayArc" and adds:
+            a["decays"] = {adds[0]: {"constant": F(1, 20), "exponent": F(101, 100)}}
+
+
 def gen_model(r, ndates=4, polset=None, size=None, opts=None):
     """returns a config dict {polset, dates, nodes, arcs, orchestration?}"""
     opts = opts or {}
@@ -401,6 +435,8 @@ def gen_model(r, ndates=4, polset=None, size=None, opts=None):
             g.arc(ld, sws[0], cap=r.choice([None, F(3)]))
             if gw and r.random() < 0.5 and not any(n["name"] == gw and n.get("node_type_override") == "QueueGroundwater" for n in g.nodes):
                 g.arc(gw, sws[0])
+    if opts.get("arc_mix"):
+        mix_arcs(g, r, opts["arc_mix"])
     if opts.get("shuffle", True) and r.random() < 0.5:
         r.shuffle(g.nodes)
     cfg = {"polset": polset, "dates": g.dates, "nodes": g.nodes, "arcs": g.arcs, "size": size}
